@@ -78,7 +78,8 @@ def is_subclass(a, b):
 class Contract:
     def __init__(self, qualname, file=None, params=None, returns=NONE, requires=None, ensures=None,
                  modifies=(), raises=None, exc_ensures=None, loops=None, trusted=False, note='',
-                 props=(), pure=False, allocates=False, locals=None, src_name=None):
+                 props=(), pure=False, allocates=False, locals=None, src_name=None, ghost_update=None,
+                 ghost=None, defaults=None, ghost_mods=()):
         self.qualname, self.file = qualname, file
         self.params = params or {}          # ordered: name -> Ty   (methods: first is self)
         self.returns = returns
@@ -95,6 +96,10 @@ class Contract:
         self.allocates = allocates
         self.locals = locals or {}          # declared types for locals the executor cannot infer
         self.src_name = src_name or qualname
+        self.ghost_update = ghost_update    # history-variable instrumentation applied at call sites only
+        self.ghost_mods = list(ghost_mods)  # locations written by ghost_update (havoc'd in loops, not at the call)
+        self.ghost = ghost or {}            # ghost variables this function (and its callees) talk about
+        self.defaults = defaults or {}      # python-level default arguments (SV values)
         CONTRACTS[qualname] = self
 
 
